@@ -269,6 +269,7 @@ func (c08) Run(c core.Case) core.Outcome {
 	}
 	sort.Strings(keys)
 	compared := 0
+	eventNoLoc := ""
 	d, _ := json.Marshal(fc)
 	fail := func(kind, msg string) core.Outcome {
 		o.Class = "mislocated"
@@ -284,6 +285,11 @@ func (c08) Run(c core.Case) core.Outcome {
 			continue // element absent from the model: C02's business
 		}
 		kind := elemKind(k)
+		if len(g) == 0 && kind == "ep" && strings.HasPrefix(cs.Label, "L2/pubsub") {
+			// reported after everything else has been compared
+			eventNoLoc = fmt.Sprintf("%s is declared once, after a subscription to it, and carries no location", k)
+			continue
+		}
 		if len(g) != len(w) {
 			return fail("count|"+kind, fmt.Sprintf("%s is declared %d time(s) but carries %d location(s) %v", k, len(w), len(g), g))
 		}
@@ -307,6 +313,9 @@ func (c08) Run(c core.Case) core.Outcome {
 				return fail("outside-file|"+kind, fmt.Sprintf("%s declaration #%d: start %d:%d is outside %s", k, i, g[i].Line, g[i].Col, w[i].file))
 			}
 		}
+	}
+	if eventNoLoc != "" {
+		return fail("count|ep|event-declared-after-subscription", eventNoLoc)
 	}
 	o.Class = "located"
 	o.Extra = map[string]int{"elements_compared": compared}
